@@ -54,6 +54,39 @@ Example C08_nonvacuous :
   fst (ahead s3 1) = Null ARCHIVE_FATAL.
 Proof. vm_compute. repeat split; reflexivity. Qed.
 
+(* "never invents data", for ANY format parser written against the read core (a deterministic program that looks at
+   the first m bytes of each window it asks for and at the results of its consume calls), any two reachable core
+   states whose streams are a prefix of one another: the run on the shorter stream sees, event by event, exactly
+   what the run on the longer one sees - the same window bytes, the same consume results - until it is TOLD that
+   the input ended (NULL with the number of bytes left, fewer than asked for; or ARCHIVE_FATAL from consume) *)
+Theorem C08_truncation_delivers_prefix : forall (R : Type) (p : parser R), wf_parser p -> forall s1 s2,
+  good s1 -> good s2 -> prefix (rest s1) (rest s2) ->
+  same_until_short (ptrace p s1) (ptrace p s2).
+Proof. exact @truncation_prefix. Qed.
+Print Assumptions C08_truncation_delivers_prefix.
+
+(* the same for an input cut at any offset, whatever the two read-callback partitions are *)
+Theorem C08_cut_input_delivers_prefix : forall (R : Type) (p : parser R) data cut plan1 plan2,
+  wf_parser p -> Forall good_ract plan1 -> Forall good_ract plan2 ->
+  same_until_short (ptrace p (init_filt (mk_plain_client (take cut data) plan1)))
+                   (ptrace p (init_filt (mk_plain_client data plan2))).
+Proof. exact @truncated_input_prefix. Qed.
+Print Assumptions C08_cut_input_delivers_prefix.
+
+(* non-vacuity: a parser of 4-byte records (look at 4, consume 4, three times) on 10 of 12 bytes, 3-byte blocks:
+   two records as on the whole input, then NULL with 2 bytes left; the whole input gives three records *)
+Example C08_truncation_nonvacuous :
+  let rec3 := PAhead 4 (fun _ => PConsume 4 (fun _ => PAhead 4 (fun _ => PConsume 4 (fun _ =>
+              PAhead 4 (fun _ => PConsume 4 (fun _ => PDone tt)))))) in
+  let d := map N.of_nat (seq 0 12) in
+  ptrace rec3 (init_filt (mk_plain_client (take 10 d) [RSize 3; RSize 3; RSize 3; RSize 3])) =
+    [EvAhead 4 (inl [0;1;2;3]); EvConsume 4 4; EvAhead 4 (inl [4;5;6;7]); EvConsume 4 4;
+     EvAhead 4 (inr 2%Z); EvConsume 4 ARCHIVE_FATAL] /\
+  ptrace rec3 (init_filt (mk_plain_client d [])) =
+    [EvAhead 4 (inl [0;1;2;3]); EvConsume 4 4; EvAhead 4 (inl [4;5;6;7]); EvConsume 4 4;
+     EvAhead 4 (inl [8;9;10;11]); EvConsume 4 4].
+Proof. vm_compute. split; reflexivity. Qed.
+
 (* ---- multi-volume input (IO/MultiNodeDefs.v) ---- *)
 From LA Require IO.MultiNodeDefs IO.MultiNodeProofs.
 Module MultiNode.
